@@ -2,7 +2,8 @@
 use crate::apollo::schema_walk::{diff, normalise_message, walk_schema, Diff};
 use crate::choices::Choices;
 use crate::gen::schema_ext;
-use crate::refmodel::order::{expected_order, is_builtin_type_name, BUILTIN_DIRECTIVE_NAMES};
+use crate::refmodel::ast::{Definition, Document, TypeKind};
+use crate::refmodel::order::{expected_order_with, is_builtin_type_name, BUILTIN_DIRECTIVE_NAMES};
 use crate::refmodel::parser::parse_document;
 use crate::refmodel::printer;
 use crate::runner::{Ctx, Outcome, Prop, Tier};
@@ -22,13 +23,18 @@ pub fn prop() -> Prop {
          whose Schema::parse reports build errors are skipped. Oracle: t = schema.to_string(); Schema::parse(t) \
          is Ok; equal (==) to the schema; an order-sensitive walk (type names, fields, arguments, enum values, \
          union members, implemented interfaces, every directive list with arguments, directive definitions, \
-         schema definition) is equal; second serialization is byte-identical; valid stays valid. \
+         schema definition) is equal; second serialization is byte-identical; valid stays valid; and the ordered \
+         collections of the BUILT schema equal the order the source document implies (refmodel::order, independent \
+         of apollo: definition's components first, then every extension's in source order wherever it is placed; \
+         user types and directive definitions in definition order; built-in types: what the extensions added, at the end). \
          Non-trivial: at least one type (or the schema definition) has an extension; distinct by source text.",
     )
-    .random("rich-extensions", check, |t| if t == Tier::Quick { 150_000 } else { 1_200_000 }, |t| if t == Tier::Quick { 1200 } else { 1600 })
+    .random("rich-extensions", check, |t| if t == Tier::Quick { 150_000 } else { 3_000_000 }, |t| if t == Tier::Quick { 1200 } else { 1600 })
+    .random("adopt-orphans", check_adopt, |t| if t == Tier::Quick { 50_000 } else { 1_000_000 }, |t| if t == Tier::Quick { 1200 } else { 1600 })
     .text(check_text)
     .assumptions(&[
         "a `schema` definition always keeps at least one root operation (a definition without one is not grammatical)",
+        "merged order of a type: the components of the definition, then those of each extension in source order, also for extensions written before the definition (what C13 states: moving an extension before its definition does not change the built schema)",
         "the order-sensitive walk prints leaf values (types, default values, directive applications) with apollo's own Display; value equality is decided by Schema's ==, order by the walk",
     ])
 }
@@ -159,9 +165,9 @@ fn not_equal_where(a: &Schema, b: &Schema) -> String {
 /// Compare the ordered collections of the BUILT schema with the order the source document implies
 /// (reference model `refmodel::order`: the definition's components, then every extension's in
 /// source order; types and directive definitions in definition order).
-pub fn source_order_failures(text: &str, s: &Schema, prefix: &str) -> Option<Vec<(String, String)>> {
+pub fn source_order_failures(text: &str, s: &Schema, prefix: &str, adopt: bool) -> Option<Vec<(String, String)>> {
     let doc = parse_document(text).ok()?;
-    let expected = expected_order(&doc);
+    let expected = expected_order_with(&doc, adopt);
     let actual = crate::apollo::schema_walk::order_facts(s, &|n| is_builtin_type_name(n), &|n| BUILTIN_DIRECTIVE_NAMES.contains(&n));
     let mut fails = vec![];
     for e in &expected {
@@ -192,9 +198,25 @@ pub fn source_order_failures(text: &str, s: &Schema, prefix: &str) -> Option<Vec
     Some(fails)
 }
 
-/// The oracle, on any schema source text.
+pub const ADOPT_MARK: &str = "#---adopt";
+
+fn build(text: &str, path: &str, adopt: bool) -> Result<Schema, apollo_compiler::validation::WithErrors<Schema>> {
+    if adopt {
+        Schema::builder().adopt_orphan_extensions().parse(text, path).build()
+    } else {
+        Schema::parse(text, path)
+    }
+}
+
+/// The oracle, on any schema source text. A first line `#---adopt` selects the builder's
+/// `adopt_orphan_extensions` mode for the build AND the re-parse.
 pub fn check_text(text: &str, ctx: &mut Ctx) -> Outcome {
-    let s = match Schema::parse(text, "schema.graphql") {
+    let adopt = text.lines().next().map(|l| l.trim() == ADOPT_MARK).unwrap_or(false);
+    check_text_mode(text, adopt, ctx)
+}
+
+pub fn check_text_mode(text: &str, adopt: bool, ctx: &mut Ctx) -> Outcome {
+    let s = match build(text, "schema.graphql", adopt) {
         Ok(s) => s,
         Err(e) => {
             if ctx.strict {
@@ -208,7 +230,7 @@ pub fn check_text(text: &str, ctx: &mut Ctx) -> Outcome {
     if ctx.strict {
         eprintln!("--- serialized:\n{t}");
     }
-    let s2 = match Schema::parse(&t, "reparsed.graphql") {
+    let s2 = match build(&t, "reparsed.graphql", adopt) {
         Ok(s2) => s2,
         Err(e) => {
             let first = e.errors.iter().next().map(|d| d.error.to_string()).unwrap_or_default();
@@ -219,7 +241,7 @@ pub fn check_text(text: &str, ctx: &mut Ctx) -> Outcome {
         }
     };
     let mut fails: Vec<(String, String)> = vec![];
-    match source_order_failures(text, &s, "C12") {
+    match source_order_failures(text, &s, "C12", adopt) {
         Some(f) => fails.extend(f.into_iter().map(|(sig, d)| (sig, format!("{d}\n--- source:\n{text}")))),
         None => ctx.class("source-not-parsed-by-reference"),
     }
@@ -296,4 +318,48 @@ pub fn check(bytes: &[u8], ctx: &mut Ctx) -> Outcome {
         ctx.class(format!("extended:{}", k.keyword()));
     }
     check_text(&text, ctx)
+}
+
+/// `adopt_orphan_extensions` axis: some definitions of a rich schema are turned into extensions
+/// (or dropped while their extensions stay), so that types and the schema definition exist only
+/// through extensions; built and re-parsed in that mode.
+pub fn check_adopt(bytes: &[u8], ctx: &mut Ctx) -> Outcome {
+    let mut c = Choices::new(bytes);
+    // decisions first, so that a short stream does not starve them
+    let pre = c.bytes(12);
+    let mut pc = Choices::new(&pre);
+    let max_types = if ctx.tier == Tier::Quick { 2 } else { 3 };
+    let (doc, _) = schema_ext::rich_schema(&mut c, max_types);
+    let mut defs: Vec<Definition> = vec![];
+    let (mut orphan_types, mut orphan_schema) = (0, false);
+    for d in doc.defs {
+        match d {
+            Definition::Type(mut t) if !t.is_ext && !is_builtin_type_name(&t.name) && pc.bool(70) => {
+                let has_components = !(t.directives.is_empty() && t.implements.is_empty() && t.fields.is_empty() && t.members.is_empty() && t.values.is_empty() && t.input_fields.is_empty());
+                orphan_types += 1;
+                if has_components && (t.kind != TypeKind::Scalar || !t.directives.is_empty()) && pc.bool(200) {
+                    // the definition becomes one more extension (extensions have no description)
+                    t.is_ext = true;
+                    t.description = None;
+                    defs.push(Definition::Type(t));
+                }
+                // else: the definition disappears, its extensions (if any) stay
+            }
+            Definition::Schema(mut sd) if !sd.is_ext && pc.bool(150) => {
+                orphan_schema = true;
+                sd.is_ext = true;
+                sd.description = None;
+                defs.push(Definition::Schema(sd));
+            }
+            d => defs.push(d),
+        }
+    }
+    let doc = Document { defs };
+    let text = format!("{ADOPT_MARK}\n{}", printer::print_document(&doc));
+    ctx.set_sample(text.clone());
+    ctx.class(format!("adopt:orphan-types:{}", orphan_types.min(3)));
+    if orphan_schema {
+        ctx.class("adopt:schema-definition-only-extensions");
+    }
+    check_text_mode(&text, true, ctx)
 }
